@@ -604,6 +604,10 @@ func (x *FnExec) havocPlace(loc *Place, st *State, what string) {
 func (x *FnExec) builtin(fr *Frame, b *ssa.Builtin, cc *ssa.CallCommon, st *State, g *Term, pos token.Pos) Value {
 	tc := x.tc
 	switch b.Name() {
+	case "recover":
+		// only non-panicking executions are modelled (a reachable panic is a violation or ends the path):
+		// in those recover() returns nil
+		return x.refConst(0)
 	case "len", "cap":
 		a := fr.val(cc.Args[0])
 		var r *Term
